@@ -354,10 +354,14 @@ impl<'a> Gen<'a> {
         Op::NewArg(any)
     }
     fn random_steps(&mut self, n: usize) {
-        for _ in 0..n {
+        // in a long history, now and then a stretch of 30-60 updates with no query in between
+        let mut silent = 0usize;
+        for i in 0..n {
+            if n >= 60 && silent == 0 && self.rng.chance(1, 60) && i + 30 < n { silent = self.rng.range(30, 60); }
             let op = self.random_update();
             let removal = matches!(op, Op::RemArg(_) | Op::RemAtt(_, _));
             self.up(op);
+            if silent > 0 { silent -= 1; continue; }
             if removal { self.maybe_query(3, 5) } else { self.maybe_query(2, 5) }
         }
     }
